@@ -37,6 +37,8 @@ class ConfGen:
             out.append([LD, mark(ident + "_ld")])
         if r.random() < 0.25:
             out.append([["origin", "list"], mark(ident + "_ol")])
+        if r.random() < 0.3:
+            out.append([["int"], ["shift", ident + "_i", "both", r.choice([100, -7, 1000])]])     # lossless: round trips under the same dialect
         return out
 
     def dialect(self, name):
@@ -53,17 +55,41 @@ class ConfGen:
                 d.append(["strategy", t])
         return d
 
+    LIT_POOL = ["t/p", "t p", "t_p", "a'b", "a\nb", "a\\b", "x", "X"]
+
+    def literal(self):
+        r = self.r
+        vals = [["str", s_] for s_ in r.sample(self.LIT_POOL, r.randint(1, 2))]
+        # (no int constants: together with an int serialization strategy the real packer converts the constant and the
+        #  unpacker compares the raw input -- an obscure asymmetry outside what C11 / C16 state; strings have no strategy here)
+        return ["literal", vals]
+
     def leaf_type(self):
+        r = self.r
+        p = r.random()
+        if p < 0.08:
+            return r.choice([["union", [DATE, ["str"]]], ["union", [["int"], DATE]], ["union", [["str"], ["list", ["int"]]]],
+                             ["union", [["int"], ["str"]]], ["opt", ["union", [["int"], ["str"]]]]])
+            # (Optional[Union[int, str]] IS Union[int, str, None]; with a str member nothing is ever "garbage", so the known finding F07 --
+            #  unions with None turn undecodable input into None -- cannot decide an outcome here; C11's own check exercises it)
+        if p < 0.16:
+            return self.literal()
         return self.r.choice([["int"], ["str"], ["opt", ["int"]], ["opt", ["str"]], DATE, ["opt", DATE], LD, ["list", ["int"]],
                               ["dict", ["str"], ["int"]], ["dict", ["str"], DATE], ["opt", ["list", ["int"]]], ["bool"], ["float"],
                               ["tuple", [["int"], ["opt", ["str"]]]], COLOR, ["text", "decimal"], ["dict", ["str"], ["list", ["int"]]],
-                              ["list", ["dict", ["str"], ["int"]]], ["list", ["opt", DATE]]])
+                              ["list", ["dict", ["str"], ["int"]]], ["list", ["opt", DATE]],
+                              ["opt", ["tuple", [["opt", ["str"]], ["int"]]]], ["opt", ["tuple", [["opt", DATE], ["opt", ["int"]]]]]])
 
     def value(self, T):
+        if T[0] == "literal":
+            return self.r.choice(T[1])
+        if T[0] == "union" and any(m[0] == "literal" for m in T[1]):
+            return self.value(self.r.choice(T[1]))
         from harness.gen import Gen
         if not hasattr(self, "_g"):
             self._g = Gen(1, max_depth=2)
             self._g.r = self.r
+            self._g.small_ints = True
         return self._g.value(T)
 
     def klass(self, name, depth, nested=None):
@@ -182,6 +208,9 @@ class ConfGen:
                                 al = b
             names[f[0]] = al
         rev = {v: k for k, v in names.items() if v}
+        # a field typed Union[A, B, None] turns garbage into None (known finding F07, exercised by C11's own check): here such a
+        # field only meets its own values, null and absence, so that the FIRST failing field of an input is never decided by F07
+        swallow = {f[0] for f in T[2] if f[1][0] == "opt" and f[1][1][0] == "union"}
         out = [wire]
         pairs = wire[1]
         for _ in range(6):
@@ -190,6 +219,8 @@ class ConfGen:
                 key = k[1] if k[0] == "str" else None
                 other = names.get(key) or rev.get(key)
                 a = r.random()
+                if (key in swallow or rev.get(key) in swallow) and 0.22 <= a < 0.3:
+                    a = 0.9
                 if a < 0.12:
                     continue                                       # dropped
                 if a < 0.22:
@@ -200,7 +231,7 @@ class ConfGen:
                     ps.append([["str", other], v])                 # the field's other key
                 elif a < 0.6 and other:
                     ps.append([k, v])
-                    ps.append([["str", other], r.choice([v, ["none"], ["str", "shadow"]])])   # both keys present
+                    ps.append([["str", other], r.choice([v, ["none"]] + ([] if (key in swallow or rev.get(key) in swallow) else [["str", "shadow"]]))])   # both keys present
                 else:
                     ps.append([k, v])
             if r.random() < 0.25:
